@@ -182,6 +182,9 @@ fn server_received_a_message(
                         world
                             .resource_mut::<SyncTrackerRes>()
                             .host_promotion_in_progress = true;
+                        // a RenetClient that was disconnected once (kicked in an earlier hand-over) never
+                        // connects again: start over with a new one
+                        world.insert_resource(RenetClient::new(bevy_renet::renet::ConnectionConfig::default()));
                         world.insert_resource(create_client(ip, port));
                     });
                 }
